@@ -50,7 +50,7 @@ def run(ctx):
                                                            keys="1, 2, 3"))
     r1 = ctx.tlc(sd, "MC_ImmunityCache", "r1.cfg", timeout=1500, coverage=not q)
     if not q and r1.ok:
-        zero = [z for z in r1.coverage_zero if z in ("Add", "Immunize", "Remove", "Get", "Clear", "Init")]
+        zero = [z for z in r1.coverage_zero if z in ("NAdd", "NImmunize", "NRemove", "NGet", "NClear")]
         if zero:
             ctx.broken.append("vacuity guard: actions never taken in R1: %s" % zero)
         ctx.cov(vacuity_guard="-coverage 1: every action of Next taken (%s)" % ("ok" if not zero else zero))
@@ -96,7 +96,8 @@ def run(ctx):
         base, spec="GenSpec", configs="CfgSim", used=2, defects='"C27floor"', withbad="TRUE", both="TRUE",
         log="LogAppend", depth=20 if q else 30, rest="ACTION_CONSTRAINT EmitFull"))
     beh2 = ctx.path("sim.ndjson")
-    ctx.tlc(sd, "MC_ImmunityCache", "sim.cfg", simulate=10 if q else 300, depth=20 if q else 30, timeout=900, behaviours_out=beh2)
+    ctx.tlc(sd, "MC_ImmunityCache", "sim.cfg", simulate=10 if q else 100, depth=20 if q else 30, timeout=900, behaviours_out=beh2)
+    thin(beh2, 4 if q else 10)   # TLC prints every last-step variant of a walk
     mis2 = ctx.path("mismatch2.ndjson")
     r2 = ctx.vh(exe, ["replay", beh2, mis2], timeout=900)
     ctx.cov(traces_validated_against_impl=int(r2.stats.get("followed", 0)), evaluations=int(r2.stats.get("steps", 0)))
@@ -145,6 +146,14 @@ def run(ctx):
                  "flags, byte counters and cache totals compared after the step; distinct = distinct (configuration, "
                  "source state, call, arguments); plus simulated 30-step behaviours over two chunks; R3: random real "
                  "histories (hash-chosen chunks) validated by Trace_ImmunityCache with all C27 predicates")
+
+
+def thin(path, k):
+    lines = open(path).read().splitlines()
+    with open(path, "w") as f:
+        for i, l in enumerate(lines):
+            if i % k == 0:
+                f.write(l + "\n")
 
 
 def judge_mismatches(ctx, sd, r, mis, what):
